@@ -696,18 +696,24 @@ class ODataParser(Parser):
         Returns:
             A list of all identifiers in the ``attr``
         """
-        if isinstance(attr.owner, ast.Identifier):
-            exploded = [attr.owner.name]
-        elif isinstance(attr.owner, ast.Attribute):
-            exploded = self._explode_attr(attr.owner)
-        else:
-            raise NotImplementedError()
-
-        if isinstance(attr.attr, str):
-            exploded.append(attr.attr)
-        elif isinstance(attr.attr, ast.Attribute):
-            exploded.extend(self._explode_attr(attr.attr))
-        else:
-            raise NotImplementedError
+        # NOTE: Iterative instead of recursive, so that a path with thousands of
+        # segments cannot exhaust the interpreter's recursion limit.
+        exploded: List[str] = []
+        todo: List[Any] = [attr]
+        while todo:
+            item = todo.pop()
+            if isinstance(item, str):
+                exploded.append(item)
+            elif isinstance(item, ast.Attribute):
+                if isinstance(item.owner, ast.Identifier):
+                    todo.append(item.attr)
+                    todo.append(item.owner.name)
+                elif isinstance(item.owner, ast.Attribute):
+                    todo.append(item.attr)
+                    todo.append(item.owner)
+                else:
+                    raise NotImplementedError()
+            else:
+                raise NotImplementedError()
 
         return exploded
